@@ -39,7 +39,11 @@ func ribCase(name string, cfg *RibCfg, steps []Step) *CaseSpec {
 		for _, s := range steps {
 			switch s.Kind {
 			case "add", "del":
-				o = append(o, "rib."+s.Kind+" "+Describe(s.Op, s.Cls).Enc()+" # "+prototextLine(s.Op))
+				l := "rib." + s.Kind + " " + Describe(s.Op, s.Cls).Enc() + " # " + prototextLine(s.Op)
+				if s.Gap != nil {
+					l += " ## overlapped by: rib." + s.Gap.Kind + " " + Describe(s.Gap.Op, s.Gap.Cls).Enc()
+				}
+				o = append(o, l)
 			case "flush":
 				o = append(o, "rib.flush "+LS(s.NIs))
 			case "addni":
